@@ -3,6 +3,7 @@ package props
 import (
 	"fmt"
 	"os"
+	"os/exec"
 	"path/filepath"
 	"sort"
 	"strings"
@@ -56,6 +57,7 @@ var hostileExp = []string{
 	".", "..", "...", "\\", "\"\\", "\"\\x\"", "\"\\U00110000\"", "\"\\777\"", "r\"raw\"", "b'bytes'", "rb\"x\"", "\"a\" \"b\" 'c'", "\"a\"\n\n\"b\"",
 	"a ? b : c", "a && b || !c", "x in [1, 2]", "a.b(c)[d]", "has(x.y)", "size(x) > 0", "1 + 2 * 3 - -4 / 5 % 6", "x == y != z <= w >= v", "{a: 1, b: [2, 3]}", "x.map(y, y * 2)",
 	"option", "message", "extend", "group", "map<", "map<,>", "oneof", "rpc", "returns", "stream", "reserved", "extensions", "to max", "syntax", "edition", "import public weak",
+	"r\u200b\"abc\"", "b\u00ad'x'", "true\ufeff\"\"\"", "x\u2060\"s\"", "rb\u200d'y'", "id\u200b", "\u200b", "\u00ad\"",
 	"{0<}", "{a < b: 1}", "<a:", "/* a\n\n\n  b  \n*/", "{a: A.}", "[A.]", "(o.)", "{a: .}", "A.", "a/", "{a: b.c/}",
 	"1e44444444", "1e-44444444", "1.5e-2147483650", "0x1p999999999", "9e99999999999999999999", "1e44444444f",
 	"export", "local", "import option", "\r", "\v", "\f", "\u2028", "\ufeff", "\ufffd", "$", "#", "@", "`", "~", "?", "é", "日本", "😀", "ident\u00e9",
@@ -225,6 +227,40 @@ func c28Oracle(name, text string) (nerr, nwarn int, err error) {
 			return nerr, nwarn, fmt.Errorf("diagnostic %d primary span [%d,%d) outside the %d-byte file", i, sp.Start, sp.End, len(text))
 		}
 	}
+	// "success exactly when no error diagnostics were produced" is about THIS call: parse into a report that
+	// already holds diagnostics - first a warnings-only file then the input, and the other way round
+	const warnOnly = "message Only { }\n" // no syntax, no package: warnings, no error
+	countErrs := func(ds []report.Diagnostic) int {
+		n := 0
+		for i := range ds {
+			if ds[i].Level() <= report.Error {
+				n++
+			}
+		}
+		return n
+	}
+	for _, order := range [][2]string{{warnOnly, text}, {text, warnOnly}} {
+		shared := &report.Report{}
+		var perr2 error
+		func() {
+			defer func() {
+				if p := recover(); p != nil {
+					perr2 = fmt.Errorf("panic escaped parser.Parse on a shared report: %v", p)
+				}
+			}()
+			for k, src := range order {
+				before := len(shared.Diagnostics)
+				_, ok := xparser.Parse(fmt.Sprintf("s%d.proto", k), source.NewFile(fmt.Sprintf("s%d.proto", k), src), shared)
+				if newErrs := countErrs(shared.Diagnostics[before:]); ok != (newErrs == 0) {
+					perr2 = fmt.Errorf("Parse call %d into a report that already held %d diagnostic(s) returned ok=%v but produced %d error diagnostic(s) itself (input of that call: %q)", k+1, before, ok, newErrs, truncStr(src, 200))
+					return
+				}
+			}
+		}()
+		if perr2 != nil {
+			return nerr, nwarn, perr2
+		}
+	}
 	return nerr, nwarn, nil
 }
 
@@ -252,11 +288,11 @@ func c28Check(c srcCase, r *ev.Rec) error {
 	return nil
 }
 
-const c28Rule = "byte strings: random bytes, soups of hostile fragments (unterminated strings/comments, stray and mismatched brackets, NUL, invalid UTF-8, BOMs, numeric and escape edge cases incl. astronomically large exponents, CEL-like expressions, keywords), the experimental packages' own lexer/parser/ir/printer test inputs and stable-parser-accepted generated files, verbatim or after hostile insertions plus 1-4 mutations (truncation, token deletion/duplication/swap/replacement, bit flips), nesting up to 400 deep"
+const c28Rule = "byte strings: random bytes, soups of hostile fragments (unterminated strings/comments, stray and mismatched brackets, NUL, invalid UTF-8, BOMs, invisible format characters between a string prefix and its quote, numeric and escape edge cases incl. astronomically large exponents, CEL-like expressions, keywords), the experimental packages' own lexer/parser/ir/printer test inputs and stable-parser-accepted generated files, verbatim or after hostile insertions plus 1-4 mutations (truncation, token deletion/duplication/swap/replacement, bit flips), nesting up to 400 deep"
 
 func TestC28_Total(t *testing.T) {
 	ev.Run(t, ev.Spec[srcCase]{ID: "C28", Name: "Total", Quick: 4000, Thorough: 200000,
-		Rule: c28Rule + "; oracle: parser.Parse returns (within 4 s + 1 ms/byte, three attempts), no panic escapes it, the file is non-nil, no diagnostic has level ICE, ok == (no diagnostic of level Error), and every annotation of every diagnostic (read from Report.ToProto) refers to the input text with 0 <= start <= end <= len(text), edits included; non-trivial = at least one diagnostic; distinct by text",
+		Rule: c28Rule + "; oracle: parser.Parse returns (within 4 s + 1 ms/byte, three attempts), no panic escapes it, the file is non-nil, no diagnostic has level ICE, ok == (no diagnostic of level Error) - also for each of two calls that share one report with a warnings-only file, in both orders -, and every annotation of every diagnostic (read from Report.ToProto) refers to the input text with 0 <= start <= end <= len(text), edits included; non-trivial = at least one diagnostic; distinct by text",
 		Gen:  genExpInput, Check: c28Check})
 }
 
@@ -319,6 +355,7 @@ func c29Oracle(name, text string) (ntok int, oddities []string, err error) {
 	var sb strings.Builder
 	var stack []token.Token
 	unmatched := 0
+	var unmatchedSpans [][2]int
 	var perr error
 	func() {
 		defer func() {
@@ -392,6 +429,7 @@ func c29Oracle(name, text string) (ntok int, oddities []string, err error) {
 			} else if tok.Kind() == token.Keyword {
 				if _, isBr := isBracketText(tok.Text()); isBr {
 					unmatched++
+					unmatchedSpans = append(unmatchedSpans, [2]int{sp.Start, sp.End})
 				}
 			}
 		}
@@ -415,6 +453,31 @@ func c29Oracle(name, text string) (ntok int, oddities []string, err error) {
 		oddities = append(oddities, "unmatched-bracket")
 		if nerr == 0 {
 			return ntok, nil, fmt.Errorf("%d bracket token(s) are unmatched (leaf) but no error diagnostic was reported", unmatched)
+		}
+		// "reported as errors": every bracket left unmatched is pointed at by an error diagnostic - as the subject
+		// ("unmatched delimiter") or as the other party ("closed by this instead", "perhaps it was meant to match
+		// this?"): some annotation of an error-level diagnostic has exactly the bracket's span
+		pointed := map[[2]int]bool{}
+		func() {
+			defer func() { _ = recover() }()
+			m := rep.ToProto().ProtoReflect()
+			diags := c37Get(m, "diagnostics").List()
+			for i := 0; i < diags.Len(); i++ {
+				dm := diags.Get(i).Message()
+				if lv := int(c37Get(dm, "level").Enum()); lv > int(report.Error) {
+					continue
+				}
+				anns := c37Get(dm, "annotations").List()
+				for j := 0; j < anns.Len(); j++ {
+					am := anns.Get(j).Message()
+					pointed[[2]int{int(c37Get(am, "start").Uint()), int(c37Get(am, "end").Uint())}] = true
+				}
+			}
+		}()
+		for _, sp := range unmatchedSpans {
+			if !pointed[sp] {
+				return ntok, nil, fmt.Errorf("the unmatched bracket %q at %d is not pointed at by any annotation of any error diagnostic (it was dropped silently)", text[sp[0]:sp[1]], sp[0])
+			}
 		}
 	}
 	if strings.Contains(text, "/*") || strings.ContainsAny(text, "\"'") {
@@ -468,6 +531,96 @@ func FuzzC29(f *testing.F) {
 		}
 		if _, _, err := c29Oracle("f.proto", string(data)); err != nil {
 			t.Fatalf("%v\ninput: %q", err, truncStr(string(data), 2000))
+		}
+	})
+}
+
+// ---- very deep nesting (run in a child process: a stack overflow is a fatal error that no recover() stops) ----
+
+func c28DeepInput(kind string, n int) string {
+	switch kind {
+	case "array":
+		return "option x = " + strings.Repeat("[", n) + strings.Repeat("]", n) + ";"
+	case "dict":
+		return "option x = " + strings.Repeat("{a:", n) + "1" + strings.Repeat("}", n) + ";"
+	case "minus":
+		return "option x = " + strings.Repeat("-", n) + "1;"
+	case "message":
+		return strings.Repeat("message M {", n) + strings.Repeat("}", n)
+	case "parens":
+		return "option " + strings.Repeat("(", n) + "a" + strings.Repeat(")", n) + " = 1;"
+	}
+	return ""
+}
+
+// TestC28_DeepNestingChild is the child side: it only does something when the parent asks for it.
+func TestC28_DeepNestingChild(t *testing.T) {
+	spec := os.Getenv("VERIF_C28_DEEP")
+	if spec == "" {
+		return
+	}
+	var kind string
+	var n int
+	if _, err := fmt.Sscanf(spec, "%s %d", &kind, &n); err != nil {
+		t.Fatalf("bad VERIF_C28_DEEP %q", spec)
+	}
+	_, _, err := c28Oracle("deep.proto", c28DeepInput(kind, n))
+	fmt.Printf("C28-DEEP-FINISHED err=%v\n", err)
+}
+
+func TestC28_DeepNesting(t *testing.T) {
+	if os.Getenv("VERIF_C28_DEEP") != "" {
+		return
+	}
+	type probe struct {
+		Kind  string
+		Depth int
+	}
+	kinds := []string{"array", "message"}
+	if ev.Thorough() {
+		kinds = []string{"array", "dict", "minus", "message", "parens"}
+	}
+	ev.RunEnum(t, ev.Spec[probe]{ID: "C28", Name: "DeepNesting", NoReplay: true,
+		Rule: "array literals, message literals, unary minus chains, message bodies and parenthesised names nested 10 000 and 1 000 000 deep (quick: arrays and message bodies), each parsed in a child process because a stack overflow cannot be recovered; oracle: the child runs the same oracle as Total and must report that it finished (300 s); a child that dies of 'stack overflow' at the 1 000 000 level is the recorded finding; non-trivial = all",
+		Check: func(p probe, r *ev.Rec) error {
+			cmd := exec.Command(os.Args[0], "-test.run", "^TestC28_DeepNestingChild$", "-test.count=1")
+			cmd.Env = append(os.Environ(), fmt.Sprintf("VERIF_C28_DEEP=%s %d", p.Kind, p.Depth))
+			done := make(chan struct{})
+			var out []byte
+			var err error
+			go func() { out, err = cmd.CombinedOutput(); close(done) }()
+			select {
+			case <-done:
+			case <-time.After(300 * time.Second):
+				if cmd.Process != nil {
+					_ = cmd.Process.Kill()
+				}
+				<-done
+				return fmt.Errorf("%s nested %d deep: the parse did not finish within 300 s", p.Kind, p.Depth)
+			}
+			s := string(out)
+			switch {
+			case strings.Contains(s, "C28-DEEP-FINISHED err=<nil>"):
+				r.Case(ev.HashStr(fmt.Sprint(p)), true, "finished", "kind="+p.Kind)
+				return nil
+			case strings.Contains(s, "C28-DEEP-FINISHED"):
+				i := strings.Index(s, "C28-DEEP-FINISHED")
+				return fmt.Errorf("%s nested %d deep: %s", p.Kind, p.Depth, truncStr(s[i:], 600))
+			case strings.Contains(s, "stack overflow") && p.Depth >= 1000000:
+				if kerr := r.KnownErr("deep-nesting-stack-overflow", "%s nested %d deep kills the process: fatal error: stack overflow", p.Kind, p.Depth); kerr != nil {
+					return kerr
+				}
+				r.Case(ev.HashStr(fmt.Sprint(p)), true, "known:stack-overflow", "kind="+p.Kind)
+				return nil
+			}
+			return fmt.Errorf("%s nested %d deep: the child process died (%v):\n%s", p.Kind, p.Depth, err, truncStr(s, 1500))
+		}}, true, func(yield func(probe) bool) {
+		for _, k := range kinds {
+			for _, d := range []int{10000, 1000000} {
+				if !yield(probe{k, d}) {
+					return
+				}
+			}
 		}
 	})
 }
